@@ -29,6 +29,7 @@ import (
 	"time"
 
 	"github.com/logrange/logrange/api/rpc"
+	"github.com/logrange/logrange/pkg/model/field"
 	. "verifharness/common"
 )
 
@@ -95,6 +96,37 @@ func genBatchAE(r *Rng, n int, budget *int) []AE {
 	return evs
 }
 
+// sameShape: consecutive events whose records have the same layout (same message length, same fields length) and
+// differ only in content: what a reader that compares or caches by shape, or keeps a reference into a reused read
+// buffer, gets wrong
+func sameShapeAEs(r *Rng, n int, budget *int) []AE {
+	base := int64(r.Range(1000, 5000))
+	mlen := r.Range(1, 10)
+	two := r.Chance(1, 2)
+	var evs []AE
+	for i := 0; i < n; i++ {
+		msg := []byte(strings.Repeat("m", mlen-1) + string(rune('a'+(i*7)%26)))
+		f := fmt.Sprintf("f=%d", (i*3+1)%10)
+		if two {
+			f = fmt.Sprintf("host=h%d,dc=%c", (i*3+1)%10, rune('p'+i%9))
+		}
+		if r.Chance(1, 6) {
+			f = "" // a record without fields between records with fields
+		}
+		*budget -= len(msg) + 30
+		evs = append(evs, AE{Ts: base + int64(i), Msg: msg, Flds: f})
+	}
+	return evs
+}
+
+func sameShapeLEs(r *Rng, n int, budget *int) []LE {
+	var les []LE
+	for _, e := range sameShapeAEs(r, n, budget) {
+		les = append(les, LE{Ts: e.Ts, Msg: e.Msg, Flds: []byte(field.Parse(e.Flds))})
+	}
+	return les
+}
+
 func genE2E(r *Rng) E2EReplay {
 	rp := E2EReplay{Kind: "e2e", MaxRec: 4096}
 	rp.MaxChunk = int64(r.PickInt(40, 60, 100, 150, 300, 300, 1000, 4000, 65536))
@@ -112,8 +144,12 @@ func genE2E(r *Rng) E2EReplay {
 		}
 		n := r.PickInt(0, 1, 1, 2, 3, 5, 8, 17)
 		switch x := r.Intn(10); {
+		case x < 6 && n >= 2 && r.Chance(1, 3):
+			rp.Reqs = append(rp.Reqs, Req{Kind: "rpc", Tags: tags, Flds: r.PickStr("", "", "w=1"), Aes: sameShapeAEs(r, n, &budget)})
 		case x < 6:
 			rp.Reqs = append(rp.Reqs, Req{Kind: "rpc", Tags: tags, Flds: genKV(r), Aes: genBatchAE(r, n, &budget)})
+		case x < 9 && n >= 2 && r.Chance(1, 3):
+			rp.Reqs = append(rp.Reqs, Req{Kind: "dir", Tags: tags, Les: sameShapeLEs(r, n, &budget)})
 		case x < 9:
 			var les []LE
 			for k := 0; k < n; k++ {
